@@ -379,9 +379,24 @@ template <class S> struct Ops {
       }
       if (m.h.count(uh) || uh.empty()) uh = "no-such-handle";
     }
+    // unknown solution names of several shapes: unrelated, one character too many, a catalogue name with a byte's top bit set or with
+    // its last character changed, the empty string
+    std::string us = "no_such_solution";
+    {
+      std::string base = SOLS[(size_t)R->below((int)SOLS.size())];
+      switch (R->below(6)) {
+        case 0: us = base + "_"; break;
+        case 1: us = "x" + base; break;
+        case 2: { size_t p = (size_t)R->below((int)base.size()); us = base; us[p] = (char)((unsigned char)us[p] | 0x80); break; }
+        case 3: us = base; us[us.size() - 1] = us[us.size() - 1] == 'q' ? 'p' : 'q'; break;
+        case 4: us = ""; break;
+        default: break;
+      }
+      for (auto& s0 : SOLS) if (s0 == us) us = "no_such_solution";
+    }
     if (kind == 0) { what = "masa_select_mms<" + P + ">(\"" + uh + "\") [unknown handle]"; f = [uh] { masa_select_mms<S>(uh); }; }
-    else if (kind == 1) { std::string h = rand_handle(); what = "masa_init<" + P + ">(\"" + h + "\",\"no_such_solution\") [unknown solution]"; f = [h] { masa_init<S>(h, "no_such_solution"); }; }
-    else { std::string h = "fresh-" + std::to_string(R->below(1000)); what = "masa_init<" + P + ">(\"" + h + "\",\"euler_1d_\") [unknown solution, new handle]"; f = [h] { masa_init<S>(h, "euler_1d_"); }; }
+    else if (kind == 1) { std::string h = rand_handle(); what = "masa_init<" + P + ">(\"" + h + "\",\"" + jesc(us) + "\") [unknown solution]"; f = [h, us] { masa_init<S>(h, us); }; }
+    else { std::string h = "fresh-" + std::to_string(R->below(1000)); what = "masa_init<" + P + ">(\"" + h + "\",\"" + jesc(us) + "\") [unknown solution, new handle]"; f = [h, us] { masa_init<S>(h, us); }; }
     hist(what);
     Outcome o = guarded(f, true);
     if (!o.fatal || o.abnormal) { hviol("C16", "misuse-not-fatal", what + " did not end in a fatal error" + (o.abnormal ? " (" + o.what + ")" : "")); }
